@@ -220,6 +220,12 @@ def check_distance_nodes(ctx):
             ref = lambda a, b: float(np.sum(np.abs(a - b) ** 3))
         else:
             ref = getattr(ssd, mname)
+            if mname in ('euclidean', 'cityblock', 'sqeuclidean', 'chebyshev') and rng.random() < .4:
+                kw['w'] = np.array([rng.choice([0.25, 1.0, 2.0, 3.0]) for _ in range(width)])       # the metric's weight keyword
+                ref = lambda a, b, w=kw['w'], f=getattr(ssd, mname): f(a, b, w=w)
+        if mname == 'minkowski' and rng.random() < .4:
+            kw['w'] = np.array([rng.choice([0.25, 1.0, 2.0]) for _ in range(width)])
+            ref = lambda a, b, p=kw['p'], w=kw['w']: ssd.minkowski(a, b, p, w=w)
         metric = mname if mname != 'custom' else (lambda X, Y: np.sum(np.abs(X - Y) ** 3, axis=1, keepdims=rng.random() < .5))
         obs_row = [dyadic(rng) for _ in range(width)]
         data = [[dyadic(rng) for _ in range(width)] for _ in range(n)]
@@ -258,7 +264,7 @@ def check_distance_nodes(ctx):
         if bad:
             ctx.fail_input(case, 'distance node output differs from the metric applied row by row to the stacked summaries '
                            '(expected shape (%d,))' % n, exp.tolist(), obs)
-        if mname in ('cityblock', 'sqeuclidean', 'chebyshev'):
+        if mname in ('cityblock', 'sqeuclidean', 'chebyshev') and 'w' not in kw:
             # the observed twins elfi computed: S_i(observed) -> shapes (1,) or (1, m)
             oj, col = [], 0
             for s in shapes:
